@@ -6,6 +6,7 @@ import Switcher.Model.Tools
 import Switcher.Model.Device
 import Switcher.Model.Sched
 import Switcher.Model.Api
+import Switcher.Model.Bridge
 open Spec Wire Model
 
 def showPyText : Py (List Char) → String
@@ -19,8 +20,6 @@ def showPyHex : Py (List Char) → String
   | .error e => "raise " ++ e.name
 
 def optTok (s : String) : Option String := if s == "-" then none else some s
-
-def tenths (n : Nat) : String := s!"{n / 10}.{n % 10}"
 
 def showResp : Py Resp → String
   | .error e => "raise " ++ e.name
@@ -75,6 +74,12 @@ def runOpLine (toks : List String) : String :=
     | _, _, _, _, _, _ => "bad-arg"
   | _ => "bad-arg"
 
+def showHandled : Handled → String
+  | .ignored => "ignored"
+  | .warnUnknown => "warn"
+  | .raised e => "raise " ++ e.name
+  | .device d => "device " ++ showDev d
+
 def drive : List String → String
   | ["sign", p] =>
     match text? p with
@@ -101,6 +106,32 @@ def drive : List String → String
     match text? a, text? b with
     | some x, some y => showPyText (calcDuration x y)
     | _, _ => "bad-arg"
+  | ["parsestate", h] => match bytesOfHex? h with
+    | some r => showResp ((parseState r).map (.state r))
+    | none => "bad-arg"
+  | ["parsethermo", h] => match bytesOfHex? h with
+    | some r => showResp ((parseThermo r).map (.thermo r))
+    | none => "bad-arg"
+  | ["parseshutter", h] => match bytesOfHex? h with
+    | some r => showResp ((parseShutter r).map (.shutter r))
+    | none => "bad-arg"
+  | ["sessionid", h] => match bytesOfHex? h with
+    | some r => "login " ++ String.ofList (sessionId r)
+    | none => "bad-arg"
+  | ["successful", h] => match bytesOfHex? h with
+    | some r => "base " ++ (if successful r then "1" else "0")
+    | none => "bad-arg"
+  | ["dgram", h] => match bytesOfHex? h with
+    | some m => showHandled (parseDatagram m)
+    | none => "bad-arg"
+  | "bridge" :: arrivals =>          -- p:hex p:hex … → deliveries in order
+    let arr := arrivals.filterMap (fun a => match a.splitOn ":" with
+      | [p, h] => match p.toNat?, bytesOfHex? h with
+        | some p, some m => some (p, m)
+        | _, _ => none
+      | _ => none)
+    let ds := bridgeRun arr
+    if ds.isEmpty then "-" else " | ".intercalate (ds.map (fun (p, d) => s!"{p} {showDev d}"))
   | "op" :: rest => runOpLine rest
   | _ => "bad-op"
 
